@@ -30,7 +30,7 @@ ASSUMPTIONS = [
     "the independent cost model is the definition (validated against the unchanged tree)",
     "extract_contractions gives the node each recorded call belongs to (it is the programme that is executed)",
 ]
-REQUIRED_MONITORS = ["numpy_integer_sizes", "costs_beyond_int64", "annealed_trees", "copychain_trees", "totals_vs_model", "nodes_vs_model", "peak_vs_model", "array_size_observed", "flops_observed", "peak_observed"]
+REQUIRED_MONITORS = ["derived_figures", "numpy_integer_sizes", "costs_beyond_int64", "annealed_trees", "copychain_trees", "totals_vs_model", "nodes_vs_model", "peak_vs_model", "array_size_observed", "flops_observed", "peak_observed"]
 SHARD_TIMEOUT = {"quick": 400, "thorough": 3600}
 
 
@@ -146,6 +146,26 @@ def execute_tree(rep, case, net, tree):
             return ("totals", f"{name} {got} != model {w}")
     if tree.total_flops(log=10) != math.log(want["flops"], 10) or tree.max_size(log=2) != math.log(want["size"], 2):
         return ("totals", "log variants disagree with the model")
+    # derived figures a user reads instead of the three totals
+    rep.mon("derived_figures")
+    inv_max = max([len(model.involved(frozenset(n))) for n in tree.info if len(n) > 1] + [0])
+    for name, got, w in (
+        ("total_flops(dtype='float')", tree.total_flops(dtype="float"), 2 * want["flops"]),
+        ("total_flops(dtype='complex64')", tree.total_flops(dtype="complex64"), 4 * want["flops"]),
+        ("contraction_cost()", tree.contraction_cost(), want["flops"]),
+        ("contraction_cost(log=2)", tree.contraction_cost(log=2), math.log(want["flops"], 2)),
+        ("contraction_width()", tree.contraction_width(), math.log(want["size"], 2)),
+        ("contraction_width(log=10)", tree.contraction_width(log=10), math.log(want["size"], 10)),
+        ("arithmetic_intensity()", tree.arithmetic_intensity(), want["flops"] / want["write"]),
+        ("contraction_scaling()", tree.contraction_scaling(), inv_max),
+        ("combo_cost(log=10)", tree.combo_cost(log=10), math.log(model.combo(64), 10)),
+        ("total_cost(factor=5)", tree.total_cost(factor=5), model.combo(5)),
+        ("peak_size(log=2)", tree.peak_size(order, log=2), None),
+    ):
+        if w is None:
+            continue
+        if got != w:
+            return ("totals", f"{name} {got} != model {w}")
     # ---- per node ----------------------------------------------------------
     for node in tree.info:
         fn = frozenset(node)
